@@ -30,6 +30,16 @@ ASSUMPTIONS = ["interrupt_handler is a pure counting callback; the external-memo
                "4096 elements except the counter-boundary scripts (<= 0x30000 ticks)"]
 
 M32 = 0xFFFFFFFF
+
+
+def regenerate():
+    import os
+    import sys
+    sys.path.insert(0, os.path.join(vlib.ROOT, "tools"))
+    import gen_impl
+    st = gen_impl.generate()
+    st.pop("include_dir", None)
+    return st
 STEP_POOL = [0, 1, 2, 3, 4, 0xFFFF, 0xFFFE, 0x8000, 0x7FFF, 0x100, 8, 6]
 CAP = 4096
 
@@ -397,7 +407,91 @@ DIRECT_TEXT = {
 }
 
 
+# ---------------------------------------------------------------- the transfer programmed through a real Teakra
+
+DMA_REGS = [0x1C0, 0x1C2, 0x1C4, 0x1C6, 0x1C8, 0x1CA, 0x1CC, 0x1CE, 0x1D0, 0x1D2, 0x1D4, 0x1D6, 0x1D8, 0x1DA]
+
+
+def facade_script(rng):
+    """One or two DSP->DSP transfers programmed through the MMIO channel window of a real Teakra::Teakra, twice from the
+    same memory: first undisturbed, then with the host-side queries (DMAChan0GetSrcHigh / DMAChan0GetDstHigh, MMIO reads
+    of the window) falling between the channel select, the register writes and the start.  The host queries are documented
+    as read-only, so both runs must leave the same memory (`inspect_facade`), and both must agree with the model."""
+    nch = 1 + rng.below(2)
+    chans = []
+    while len(chans) < nch:
+        c = rng.below(8)
+        if c not in chans:
+            chans.append(c)
+    fill = []
+    writes = []
+    for k, ch in enumerate(chans):
+        dword = rng.below(2)
+        n0, n1, n2 = 1 + rng.below(5), 1 + rng.below(3), 1 + rng.below(2)
+        size0 = n0 * 2 if dword else n0
+        src = 0x0200 + 0x400 * k + 2 * rng.below(16)
+        dst = 0x2000 + 0x800 * k + 2 * rng.below(16)
+        st = [rng.choice([1, 2, 3, 4]) * (2 if dword else 1) for _ in range(6)]
+        for a in range(src, src + 0x80):
+            fill.append("bus dw %x %x" % (a, rng.bits(16)))
+        vals = [src & 0xFFFF, 0, dst & 0xFFFF, 0, size0, n1, n2, st[0], st[1], st[2], st[3], st[4], st[5], dword << 10]
+        writes.append([(ch, off, v) for off, v in zip(DMA_REGS, vals)])
+    # interleave the register programming of the channels
+    order = []
+    idx = [0] * nch
+    while any(idx[k] < len(writes[k]) for k in range(nch)):
+        k = rng.below(nch)
+        if idx[k] < len(writes[k]):
+            run = 1 + rng.below(5)
+            order += writes[k][idx[k]:idx[k] + run]
+            idx[k] += run
+    starts = list(chans)
+
+    def program(disturb):
+        out = []
+        cur = None
+        for (ch, off, v) in order:
+            if cur != ch:
+                out.append("bus mw 1be %x" % ch)
+                cur = ch
+                if disturb and rng.chance(1, 2):
+                    out.append("bus " + rng.choice(["dsthi", "srchi", "dsthi"]))
+            out.append("bus mw %x %x" % (off, v))
+            if disturb and rng.chance(1, 6):
+                out.append("bus " + rng.choice(["dsthi", "srchi", "mr 1be", "mr 1c6"]))
+        for ch in starts:
+            out.append("bus mw 1be %x" % ch)
+            if disturb:
+                out.append("bus " + rng.choice(["dsthi", "srchi", "dsthi"]))
+            out.append("bus mw 1de 40c0")
+        out.append("bus mr 1be")
+        out.append("bus memdigest")
+        return out
+
+    s = ["bus new %s" % rng.choice(["own", "capi"])] + fill + program(False)
+    s += ["bus rst"] + fill + program(True)
+    return s
+
+
+def inspect_facade(script, impl):
+    if not script or not script[0].startswith("bus new"):
+        return []
+    dig = []
+    for i, (line, r) in enumerate(zip(script, impl)):
+        if r.split(" ")[0] in vlib.ABORTS or r.split(" ")[0] in ("unmodelled", "bad-op"):
+            return []
+        if line == "bus memdigest":
+            dig.append((r.split(" ")[0], i))
+    if len(dig) == 2 and dig[0][0] != dig[1][0]:
+        return [("the same transfers programmed through the MMIO channel window leave different memory when read-only host "
+                 "queries (DMAChan0GetSrcHigh / DMAChan0GetDstHigh / MMIO reads) fall between channel select, register writes "
+                 "and start: memory digest %s undisturbed, %s with the queries" % (dig[0][0], dig[1][0]), dig[1][1])]
+    return []
+
+
 def signature(script, impl):
+    if script and script[0].startswith("bus"):
+        return [("facade", sum(1 for l in script if l == "bus mw 1de 40c0"), sum(1 for l in script if l in ("bus dsthi", "bus srchi")) > 0)]
     out = []
     cfg = None
     ah = None
@@ -417,6 +511,11 @@ def signature(script, impl):
 
 
 def judge(pair, script, impl, model):
+    if script and script[0].startswith("bus"):
+        hits = inspect_facade(script, impl)
+        if hits:
+            return True, "(the real code violates the property: %s)" % hits[0][0]
+        return True, "(a transfer programmed through the MMIO registers of a real Teakra differs from the model the theorems are about)"
     op = script[-1].split()[1] if script else ""
     if op in ("start", "startn", "startcheck", "wreg"):
         return True, "(the real transfer differs from the model, which is proved equal to the closed-form element sequence)"
@@ -435,7 +534,8 @@ def explore(rng, tier, replay=None):
     scripts += reg_scripts(rng.fork("reg"), 150 if quick else 2000)
     direct = direct_scripts(rng.fork("direct"), 300 if quick else 4000)
     scripts += [s for (_, s) in direct]
-    ctx = corr.explore(PROP, scripts, judge=judge, signature=signature,
+    scripts += [facade_script(rng.fork("facade%d" % k)) for k in range(120 if quick else 2500)]
+    ctx = corr.explore(PROP, scripts, judge=judge, signature=signature, inspect=inspect_facade,
                        rule="(1) grid: sizes 0..4 per dimension x both modes, steps from the boundary pool "
                             "{0,1,2,3,4,6,8,0x100,0x7FFF,0x8000,0xFFFE,0xFFFF}, spaces {0,7}, base addresses chosen from "
                             "the closed-form extent so most transfers stay inside the array and 1/16 leave it (both "
@@ -443,7 +543,11 @@ def explore(rng, tier, replay=None):
                             "unit/burst values 0..3, overlapping ranges, 1-3 transfers per script (burst-queue state "
                             "carries over), start through SetZ(0x40C0); (3) counter-boundary sizes with a tick budget; "
                             "(4) direct AHBM accesses at odd/even addresses; (5) register set/get; (6) `startcheck`: "
-                            "the real transfer against the harness's own three-nested-loop copy. distinct = (op, size "
+                            "the real transfer against the harness's own three-nested-loop copy; (7) facade: DSP->DSP transfers on one or two "
+                            "channels programmed through the MMIO channel window of a real Teakra::Teakra (own and C binding), "
+                            "twice from the same memory - undisturbed, then with the read-only host queries DMAChan0GetSrcHigh / "
+                            "DMAChan0GetDstHigh and window reads between select, register writes and start - memory digests "
+                            "compared on the implementation and with the model. distinct = (op, size "
                             "classes, spaces, mode, step-pool indices, unit, burst, outcome) seen in the implementation")
     # the property evaluated on the implementation itself
     pair = vlib.Pair("plain")
@@ -473,4 +577,5 @@ def explore(rng, tier, replay=None):
 
 
 def replay(rep):
+    regenerate()
     return corr.replay(rep)
